@@ -48,7 +48,8 @@ G0 == [t |-> 0,
 
 GMsg(kind, t) == [q |-> Qualifies(kind), c |-> ContentOk(kind), lag |-> Lag(kind), arr |-> t]
 P(s, t) == s.arr # None /\ s.q /\ t - s.arr < MaxAge
-\* cause predicate of the known deviation, from the injected events only
+\* cause predicate of the named deviation Dev_EdgeAgeAccepted (repaired in /repo d120239), from the injected
+\* events only: failing records of the two freshness clauses carry its name when it explains them
 D(s, t) == s.arr # None /\ s.c /\ s.lag = MaxAge /\ t - s.arr < MaxAge
 Until(kk) == kk.t0 + BackoffDur(kk.n)
 BlockedAt(kk, t) == kk.act /\ Until(kk) > t
